@@ -7,10 +7,14 @@ generator  : random edit histories on the REAL kyupy.circuit API (Node / Line co
 correspond.: the same history replayed by the Lean object model (Model/CircObj.lean through the compiled driver,
              command `circobj`): canonical dump after EVERY step must be equal (and the model's `pre` must be 1);
              the first differing step is reported as a broken tie together with the shortest failing prefix.
+             `substitute` / `remove_dangling_nodes` / `resolve_tlib_cells` are modelled at object level too
+             (Model/CircObjSub.lean; tokens `sub:<index>:<implementation as pickle state>`, `rd:<index>`,
+             `res:<kind>=<state>/...`, `rtl:<LIB>:...` = the built-in library object on the real side, `st:<state>` = start
+             from a given circuit): same dump after the call, raising exactly when the real code raises, and the model's
+             precondition (`substPre` ...) is reported; where it holds `invOK` must hold (theorems of Props/C09).
 oracle     : the invariant WFc stated directly over the Python objects (identity checks, not `==`) after EVERY step;
-             a failure is a violation with the history prefix as replay.  `substitute` / `resolve_tlib_cells` /
-             `remove_dangling_nodes` are not modelled: they are exercised through this oracle only (netlists of library
-             cells with unconnected pins; `rd:<index>` = remove_dangling_nodes(nodes[index]) at the end of a history).
+             a failure is a violation with the history prefix as replay (also for the three operations above, incl. the older
+             oracle-only streams on netlists of library cells and random implementations).
 """
 import json, pickle
 from . import common
@@ -24,7 +28,12 @@ RULE = ('random edit histories of 1-120 operations (thorough: up to 300) from th
         'renumbering, and the last line of the list), Node.remove after the node\'s lines, io_nodes.append, '
         'get_or_add_fork, eliminate_1to1_forks (chains of 1:1 forks, port forks, forks with 0 or >1 outputs), copy() and '
         'pickle round trips mid-history (editing continues on the copy); canonical dump after every step compared with the '
-        'Lean object model, WFc evaluated on the Python objects after every step. substitute/resolve_tlib_cells: random '
+        'Lean object model, WFc evaluated on the Python objects after every step. substitute / remove_dangling_nodes / resolve_tlib_cells '
+        'inside the histories (profile subst; instances whose pins fit a random implementation circuit or a cell of a built-in library, '
+        'some pins unconnected; synthetic libraries), on the C10 hosts x implementations loaded as pickle state, and resolve_tlib_cells with '
+        'the built-in library objects (GSC180, NANGATE, NANGATE_ZN, SAED32, SAED90): dump after the call compared with the object model '
+        '(Model/CircObjSub.lean), raising cases must raise in both; port-cell style implementations whose forks drive several output '
+        'ports, with open instance outputs (the squeeze of D30). Oracle-only streams: random '
         'netlists of library cells (NANGATE, SAED32, SAED90, GSC180), some pins unconnected, WFc after the call (oracle only); '
         'remove_dangling_nodes(root) for a non-port root without output lines after a random history (oracle only). '
         'distinct = history token list; non-trivial = at least 8 operations incl. a removal')
@@ -80,8 +89,16 @@ def apply_op(c, tok):
         c.get_or_add_fork(unpct(f[1]))
     elif f[0] == 'elim':
         c.eliminate_1to1_forks()
-    elif f[0] == 'rd':      # not modelled (oracle only)
+    elif f[0] == 'rd':
         c.remove_dangling_nodes(c.nodes[int(f[1])])
+    elif f[0] == 'sub':
+        c.substitute(c.nodes[int(f[1])], circuit_from_spec(f[2]))
+    elif f[0] == 'res':     # a library object that has just what resolve_tlib_cells reads: cells[kind][0]
+        c.resolve_tlib_cells(StubLib({unpct(k): (circuit_from_spec(sp),) for k, sp in (e.split('=') for e in f[1].split('/') if e)}))
+    elif f[0] == 'rtl':     # the built-in library object itself (the model gets the implementations of the kinds in use)
+        with common.quiet(): c.resolve_tlib_cells(tlib_of(f[1]))
+    elif f[0] == 'st':
+        c = circuit_from_spec(f[1], 'h')
     elif f[0] == 'copy':
         c = c.copy()
     elif f[0] == 'pickle':
@@ -89,6 +106,41 @@ def apply_op(c, tok):
     else:
         raise ValueError(tok)
     return c
+
+
+NEW_OPS = ('sub', 'rd', 'res', 'rtl', 'st')      # operations of Model/CircObjSub.lean (Op2) + load
+
+
+NEW_CLASS = {'sub': 'substitute:', 'res': 'substitute:', 'rtl': 'substitute:', 'rd': 'dangling:'}      # class prefix of violations
+
+
+def is_new(tok):
+    return tok.split(':')[0] in NEW_OPS
+
+
+class StubLib:
+    def __init__(self, cells): self.cells = cells
+
+
+def spec_of(c):
+    """pickle state of a circuit as part of a token: `name,kind|...;d.dp.r.rp|...;i,i` (every line has both ends)"""
+    nodes = '|'.join(f'{pct(n.name)},{pct(n.kind)}' for n in c.nodes)
+    lines = '|'.join(f'{l.driver.index}.{l.driver_pin}.{l.reader.index}.{l.reader_pin}' for l in c.lines)
+    return f"{nodes};{lines};{','.join(str(n.index) for n in c.io_nodes)}"
+
+
+def circuit_from_spec(spec, name='impl'):
+    from kyupy.circuit import Circuit
+    ns, ls, io = spec.split(';')
+    c = Circuit(name)
+    c.__setstate__({'name': name, 'nodes': [tuple(unpct(x) for x in e.split(',')) for e in ns.split('|') if e],
+                    'lines': [tuple(int(x) for x in e.split('.')) for e in ls.split('|') if e],
+                    'io_nodes': [int(x) for x in io.split(',') if x]})
+    return c
+
+
+def lib_spec(tlib, kinds):
+    return '/'.join(f'{pct(k)}={spec_of(tlib.cells[k][0])}' for k in kinds)
 
 
 def idx(x):
@@ -194,6 +246,43 @@ def node_free(c, n):
     return all(x is None for x in n.ins) and all(x is None for x in n.outs) and not any(m is n for m in c.io_nodes)
 
 
+def designated(impl):
+    """the designated cell of substitute (circuit.py:397-405), None if there is none or the walk fails"""
+    ios = set(impl.io_nodes)
+    des = None
+    try:
+        outl = [n.ins[0] for n in impl.io_nodes if len(n.ins) > 0]
+        if outl:
+            n = outl[0].driver
+            for _ in range(len(impl.nodes) + 1):
+                if not (n.kind == FORK and n not in ios): break
+                n = n.ins[0].driver
+            des = None if n in ios else n        # a port is no designated cell (repair of D32)
+    except Exception:
+        return None
+    seq = [n for n in impl.nodes if 'dff' in n.kind.lower() or 'latch' in n.kind.lower()]
+    return seq[0] if seq else des
+
+
+def impl_ok(impl):
+    """well-formed use of substitute, implementation side (the model's `implStatic`): a well-formed circuit whose port list has
+    no duplicates and whose designated cell is not a port (since the repair of D32 a walk that ends at a port gives no designated
+    cell; only a flip-flop/latch that is itself a port is still excluded)"""
+    if len(set(map(id, impl.io_nodes))) != len(impl.io_nodes) or wfc_failures(impl): return False
+    d = designated(impl)
+    return d is None or not any(d is n for n in impl.io_nodes)
+
+
+def sub_ok(c, u, impl):
+    """well-formed use of `c.substitute(u, impl)` as far as the caller is concerned, on the real objects (the model's
+    `substKinds` / `noSelfLoop`): u is a cell of c; no line runs from u to u; when the implementation has neither an
+    output nor a state element, or is a feed-through (no designated cell: then u is removed), u is not a port"""
+    if u.kind == FORK or not (0 <= u.index < len(c.nodes) and c.nodes[u.index] is u): return False
+    if any(l is not None and l.driver is u for l in u.ins): return False
+    if designated(impl) is None and any(n is u for n in c.io_nodes): return False      # no designated cell: u is removed
+    return True
+
+
 class Gen:
     """generates one history while executing it on the real API; records (token, dump, wfc failures) per step"""
     def __init__(self, rng, length, profile):
@@ -210,7 +299,9 @@ class Gen:
             self.c = apply_op(self.c, tok)
         except Exception as ex:
             self.error = f'{type(ex).__name__}: {ex}'[:300]
-            self.dumps.append('raised ' + self.error); self.fails.append([('raises', self.error)])
+            # substitute / resolve_tlib_cells may raise on an ill-fitting implementation (that belongs to C10): the model must raise too
+            self.dumps.append('raised ' + self.error); self.fails.append([] if is_new(tok) else [('raises', self.error)])
+            if is_new(tok): self.tags.add('raise:' + tok.split(':')[0])
             return False
         self.dumps.append(real_dump(self.c)); self.fails.append(wfc_failures(self.c))
         if tag: self.tags.add(tag)
@@ -361,6 +452,86 @@ class Gen:
             if extra: return self.emit(f'rl:{extra[0].index}', 'op:remove-line')
         return True
 
+    # ---- substitute / remove_dangling_nodes / resolve_tlib_cells (Model/CircObjSub.lean)
+    def rand_impl(self):
+        """a small implementation circuit (random shapes of c10.rand_impl, or a cell of a built-in library), well formed"""
+        from . import c10
+        for _ in range(5):
+            with common.quiet():
+                impl, tags = c10.lib_impl(self.rng) if self.rng.random() < 0.25 else c10.rand_impl(self.rng)
+            if len(impl.nodes) <= 40 and not wfc_failures(impl):
+                return impl, tags + c10.impl_features(impl)
+        from kyupy.circuit import Circuit
+        return Circuit('impl'), ['empty']
+
+    def instance(self, kind, impl):
+        """a new cell of the given kind whose pins fit the ports of impl (some unconnected, rarely one too many)"""
+        rng = self.rng
+        ni = sum(1 for q in impl.io_nodes if len(q.ins) == 0)
+        no = len(impl.io_nodes) - ni
+        self.k += 1
+        name = f'u{self.k}'
+        if name in self.c.cells or not self.emit(f'n:{pct(name)}:{pct(kind)}', 'op:node-cell'): return None
+        u = self.c.nodes[-1]
+        p_in, p_out = rng.choice([0.0, 0.0, 0.2]), rng.choice([0.0, 0.0, 0.3])
+        for k in range(ni + (1 if rng.random() < 0.02 else 0)):
+            if rng.random() < p_in: self.tags.add('inst:unconn-in'); continue
+            d = rng.choice([x for x in self.c.nodes if x is not u] or [None])
+            if d is None: continue
+            if not self.emit(f'l:{d.index}:{self.out_pin(d)}:{u.index}:{k}', 'op:line'): return None
+        for k in range(no + (1 if rng.random() < 0.02 else 0)):
+            if rng.random() < p_out: self.tags.add('inst:unconn-out'); continue
+            if rng.random() < 0.6:
+                if not self.add_node(FORK): return None
+                r = self.c.nodes[-1]
+            else: r = rng.choice([x for x in self.c.nodes if x is not u] or [None])
+            if r is None: continue
+            if not self.emit(f'l:{u.index}:{k}:{r.index}:{self.in_pin(r)}', 'op:line'): return None
+        return u
+
+    def sub(self):
+        rng, c = self.rng, self.c
+        impl, tags = self.rand_impl()
+        if not impl_ok(impl): return True
+        ni = sum(1 for q in impl.io_nodes if len(q.ins) == 0)
+        no = len(impl.io_nodes) - ni
+        u = None
+        if rng.random() < 0.25:      # an existing cell whose pin lists are short enough (ports, self loops, gaps in the pin lists ...)
+            cand = [n for n in c.nodes if n.kind != FORK and len(n.ins) <= ni and len(n.outs) <= no and sub_ok(c, n, impl)]
+            if cand: u = rng.choice(cand); self.tags.add('sub:existing-cell')
+        if u is None:
+            u = self.instance(rng.choice(['CELLX1', 'DFFCELL', 'LATCHQ', 'CELLX1']), impl)
+            if u is None: return False
+        if not sub_ok(self.c, u, impl):
+            self.tags.add('sub:skipped-ill-formed'); return True
+        for t in tags: self.tags.add('impl:' + t)
+        return self.emit(f'sub:{u.index}:{spec_of(impl)}', 'op:substitute')
+
+    def rd(self):
+        c = self.c
+        if not c.nodes: return self.add_node()
+        cand = [n for n in c.nodes if all(l is None for l in n.outs)]
+        n = self.rng.choice(cand) if cand and self.rng.random() < 0.8 else self.rng.choice(c.nodes)
+        return self.emit(f'rd:{n.index}', 'op:remove-dangling')
+
+    def res(self):
+        """instances of one to three library kinds (synthetic library of this history), then resolve_tlib_cells"""
+        rng = self.rng
+        if not hasattr(self, 'lib'): self.lib = {}
+        for _ in range(rng.randint(1, 3)):
+            if len(self.lib) < 3 and (not self.lib or rng.random() < 0.5):
+                impl, tags = self.rand_impl()
+                self.lib[f'LIBK{len(self.lib)}'] = impl
+            kind = rng.choice(list(self.lib))
+            if not impl_ok(self.lib[kind]): continue
+            u = self.instance(kind, self.lib[kind])
+            if u is None: return False
+            if not sub_ok(self.c, u, self.lib[kind]):        # e.g. a self loop: take the instance out of the library's reach
+                self.tags.add('res:skipped-ill-formed'); return True
+        kinds = sorted({n.kind for n in self.c.nodes if n.kind in self.lib})
+        self.tags.add(f'res:{min(sum(1 for n in self.c.nodes if n.kind in self.lib), 4)}-instances')
+        return self.emit('res:' + '/'.join(f'{pct(k)}={spec_of(self.lib[k])}' for k in kinds), 'op:resolve')
+
     def step(self):
         rng = self.rng
         n, l = len(self.c.nodes), len(self.c.lines)
@@ -375,7 +546,7 @@ class Gen:
         return {'node': self.add_node, 'line': self.add_line, 'rline': self.remove_line, 'rnode': self.remove_node,
                 'chain': self.chain, 'fanout': self.fanout, 'io': self.io, 'elim': self.elim,
                 'copy': lambda: self.emit('copy', 'op:copy'), 'pickle': lambda: self.emit('pickle', 'op:pickle'),
-                'gf': self.gf}[op]()
+                'gf': self.gf, 'sub': self.sub, 'rd': self.rd, 'res': self.res}[op]()
 
     def gf(self):
         c, rng = self.c, self.rng
@@ -395,10 +566,14 @@ class Gen:
 
 
 PROFILES = {
-    'grow':    {'node': 5, 'line': 8, 'rline': 1, 'rnode': 0.5, 'chain': 2, 'fanout': 1.5, 'io': 1, 'elim': 0.3, 'copy': 0.3, 'pickle': 0.3, 'gf': 0.5},
-    'churn':   {'node': 3, 'line': 6, 'rline': 5, 'rnode': 2.5, 'chain': 1.5, 'fanout': 1.5, 'io': 0.7, 'elim': 0.6, 'copy': 0.5, 'pickle': 0.5, 'gf': 0.4},
+    'grow':    {'node': 5, 'line': 8, 'rline': 1, 'rnode': 0.5, 'chain': 2, 'fanout': 1.5, 'io': 1, 'elim': 0.3, 'copy': 0.3, 'pickle': 0.3, 'gf': 0.5,
+                'sub': 0.3, 'rd': 0.2},
+    'churn':   {'node': 3, 'line': 6, 'rline': 5, 'rnode': 2.5, 'chain': 1.5, 'fanout': 1.5, 'io': 0.7, 'elim': 0.6, 'copy': 0.5, 'pickle': 0.5, 'gf': 0.4,
+                'sub': 0.3, 'rd': 0.5, 'res': 0.15},
     'forks':   {'node': 2, 'line': 4, 'rline': 4, 'rnode': 1, 'chain': 4, 'fanout': 4, 'io': 0.7, 'elim': 1.5, 'copy': 0.4, 'pickle': 0.4, 'gf': 0.6},
     'shrink':  {'node': 1.5, 'line': 3, 'rline': 6, 'rnode': 5, 'chain': 1, 'fanout': 1, 'io': 0.3, 'elim': 0.8, 'copy': 0.8, 'pickle': 0.8, 'gf': 0.2},
+    'subst':   {'node': 3, 'line': 6, 'rline': 1.5, 'rnode': 0.7, 'chain': 1.5, 'fanout': 1.5, 'io': 1, 'elim': 0.5, 'copy': 0.3, 'pickle': 0.3, 'gf': 0.4,
+                'sub': 1.6, 'rd': 0.8, 'res': 0.5},
 }
 
 
@@ -418,7 +593,7 @@ def real_trace(toks):
             c = apply_op(c, t)
         except Exception as ex:
             e = f'{type(ex).__name__}: {ex}'[:300]
-            dumps.append('raised ' + e); fails.append([('raises', e)]); break
+            dumps.append('raised ' + e); fails.append([] if is_new(t) else [('raises', e)]); break
         dumps.append(real_dump(c)); fails.append(wfc_failures(c))
     return dumps, fails
 
@@ -449,8 +624,12 @@ def eval_case(case):
                    'dump_after': dumps[k][:1500], 'dump_before': dumps[k - 1][:1500] if k else ''}, 'WFc holds after every step'
 
 
-def compare(ck, toks, dumps, name='circuit object model (Model/CircObj.lean) vs kyupy.circuit'):
-    """model dump == real dump at every step; returns index of first differing step or None"""
+def compare(ck, toks, dumps, name='circuit object model (Model/CircObj.lean, CircObjSub.lean) vs kyupy.circuit'):
+    """model dump == real dump at every step; returns index of first differing step or None.
+    Operations of Model/CircObj.lean: the model's `pre` must be 1.  substitute / remove_dangling_nodes / resolve_tlib_cells
+    (Model/CircObjSub.lean): the model is applied whatever its precondition says and must produce the same dump, must raise
+    exactly when the real code raises, and where its precondition holds `invOK` must hold (theorems substitute_wf,
+    removeDangling_wf, resolve_wf)."""
     try:
         recs = model_trace(toks)
     except Exception as ex:
@@ -459,27 +638,42 @@ def compare(ck, toks, dumps, name='circuit object model (Model/CircObj.lean) vs 
         if k >= len(recs):
             ck.broken_tie(name, f'model answered {len(recs)} records for {len(toks)} operations', inp={'ops': toks[:k + 1]}); return k
         f = recs[k].split(';')
+        new = is_new(toks[k])
+        op = toks[k].split(':')[0]
         pre, inv, body = f[0], f[-1], ';'.join(f[1:-1])
+        mraise = len(f) == 2 and f[1] == 'raise'
         if d.startswith('raised'):
-            ck.broken_tie(name, f'step {k} `{toks[k]}`: real code {d}; model pre={pre}', inp={'ops': toks[:k + 1]}); return k
-        if pre != '1':
+            if new and mraise:
+                ck.hist[f'raise-agreed:{op}'] += 1; return None
+            ck.broken_tie(name, f'step {k} `{toks[k][:80]}`: real code {d}; model pre={pre}' + ('' if new else ' (operation of the base model)'),
+                          inp={'ops': toks[:k + 1]}); return k
+        if mraise:
+            ck.broken_tie(name, f'step {k} `{toks[k][:80]}`: the model says the real code raises, it does not', inp={'ops': toks[:k + 1]}); return k
+        if new: ck.hist[f'pre2:{op}:{pre}'] += 1
+        elif pre != '1':
             ck.broken_tie(name, f'step {k} `{toks[k]}`: model precondition (well-formed use) is false for an operation the generator '
                           'considers well-formed', inp={'ops': toks[:k + 1]}); return k
         if canon(body) != canon(d):
             a, b = canon(body).split(';'), canon(d).split(';')
             part = next((i for i in range(min(len(a), len(b))) if a[i] != b[i]), -1)
             names = ['nodes', 'lines', 'io', 'cells', 'forks', 'stats']
-            ck.broken_tie(name, f'step {k} `{toks[k]}`: dumps differ in {names[part] if 0 <= part < 6 else "?"}: model {a[part][:400] if part >= 0 else body[:400]} '
+            ck.broken_tie(name, f'step {k} `{toks[k][:80]}`: dumps differ in {names[part] if 0 <= part < 6 else "?"}: model {a[part][:400] if part >= 0 else body[:400]} '
                           f'!= real {b[part][:400] if part >= 0 else d[:400]}', inp={'ops': toks[:k + 1]}); return k
         ck.hist['invOK:' + inv] += 1
-        if inv != '1':     # dumps are equal and the oracle holds on the real objects, so the checker must accept the model state
-            ck.broken_tie(name, f'step {k} `{toks[k]}`: invOK is false on a model state whose dump equals the real state (oracle WFc holds)',
+        if new and pre in ('0X', '0Y'):
+            ck.broken_tie(name, f'step {k} `{toks[k][:80]}`: the structural precondition holds but the run-time precondition does not '
+                          f'({pre}; excluded by theorems substStatic_pre0 / substStatic_pre)', inp={'ops': toks[:k + 1]}); return k
+        if inv != '1':
+            if new and not pre.startswith('1'):      # outside the precondition of the theorems: nothing is claimed (the oracle judged the real objects)
+                ck.hist[f'invOK0-outside-pre:{op}:{pre}'] += 1; return None
+            # dumps are equal and (base model) the oracle holds on the real objects / (new operations) the theorem says WFc holds
+            ck.broken_tie(name, f'step {k} `{toks[k][:80]}`: invOK is false on a model state whose dump equals the real state (pre={pre})',
                           inp={'ops': toks[:k + 1]}); return k
     return None
 
 
 def run_history(ck, toks, dumps, fails, tags, prof):
-    removal = any(t.startswith(('rl', 'rn', 'elim')) for t in toks)
+    removal = any(t.startswith(('rl', 'rn', 'elim', 'rd', 'sub', 'res')) for t in toks)
     ck.case(key=tuple(toks), nontrivial=len(toks) >= 8 and removal,
             sample={'profile': prof, 'ops': toks[:60], 'last_dump': dumps[-1][:600] if dumps else ''},
             tag=sorted(tags) + [f'profile:{prof}', f'len:{min(len(toks) // 40 * 40, 280)}+'])
@@ -489,10 +683,13 @@ def run_history(ck, toks, dumps, fails, tags, prof):
         k, f = v
         case = {'ops': toks[:k + 1]}
         ok, obs, exp = eval_case(case)
-        cls = f[0][0]
+        cls = NEW_CLASS.get(toks[k].split(':')[0], '') + f[0][0] if f[0][0] != 'raises' else f[0][0]
         ck.hist['violation:' + cls] += 1
-        ck.violation(cls, f'after `{toks[k]}` (step {k} of the history) the circuit violates WFc: {f[0][1]}', case, obs, exp)
-        toks, dumps = toks[:k], dumps[:k]          # the model is compared on the prefix before the violation
+        ck.violation(cls, f'after `{toks[k][:80]}` (step {k} of the history) the circuit violates WFc: {f[0][1]}', case, obs, exp)
+        # the model is compared on the prefix before the violation; a violating substitute / remove_dangling_nodes / resolve step is
+        # compared too (the model transcribes the code, so it must show the same broken graph, and its precondition must be false)
+        kk = k + 1 if is_new(toks[k]) else k
+        toks, dumps = toks[:kk], dumps[:kk]
     compare(ck, toks, dumps)
 
 
@@ -502,7 +699,18 @@ def corpus_cases():
     return json.load(open(p)) if os.path.exists(p) else []
 
 
+# D30 (fixed): an unconnected output pin whose implementation line leaves a fork that has a later output kept by substitute()
+# left a `None` gap in the outputs of the copied fork; the repaired code (and the model) make the outputs dense again
+FORK_GAP_WITNESS = ['n:a:input', 'n:u:CELLX1', 'n:o:output', 'l:0:-:1:-', 'l:1:0:2:-', 'io:0', 'io:2',
+                    'sub:1:A,input|F,__fork__|X,INV1|O1,output|O2,output;0.0.1.0|1.0.3.0|1.1.2.0|2.0.4.0;0,4,3']
+
+# D32 (fixed): feed-through implementation input -> fork -> output; before the repair the port became the designated cell and the
+# graph was corrupted, now the instance is removed and the fork takes its place (C09.exFeed)
+FEEDTHROUGH_WITNESS = ['n:a:input', 'n:u:CELLX1', 'n:o:output', 'l:0:-:1:-', 'l:1:0:2:-', 'io:0', 'io:2',
+                       'sub:1:A,input|a,__fork__|X,output;0.0.1.0|1.0.2.0;0,2', 'copy', 'pickle']
+
 FIXED = [
+    FEEDTHROUGH_WITNESS,
     # hand-written histories: every operation kind, swap-with-last on both lists, squeeze in the middle, growth by explicit pins
     ['n:a:input', 'n:a:__fork__', 'l:0:-:1:-', 'n:g:AND2', 'l:1:-:2:1', 'l:1:-:2:0', 'n:b:__fork__', 'l:1:2:3:3', 'rl:1', 'rl:0', 'io:0',
      'n:o:output', 'l:2:4:4:2', 'rl:1', 'rn:3', 'copy', 'pickle', 'l:0:-:1:-', 'elim'],
@@ -616,6 +824,8 @@ def dangling_stream(ck, n):
             ok, obs, exp = eval_case({'ops': toks[:k + 1]})
             ck.violation(cls, f'after `{toks[k]}` (remove_dangling_nodes of a non-port node without output lines): {f[0][1]}',
                          {'ops': toks[:k + 1]}, obs, exp)
+        else:
+            compare(ck, toks, dumps)
         return dumps
     for toks in (['n:a:input', 'io:0', 'n:g:BUF1', 'l:0:-:1:-', 'rd:1'],                       # smallest: port cell -> dangling gate
                  ['n:a:__fork__', 'io:0', 'n:g:BUF1', 'l:0:-:1:-', 'n:h:BUF1', 'l:0:-:2:-', 'n:z:output', 'l:2:-:3:-', 'rd:1']):
@@ -647,6 +857,129 @@ def dangling_stream(ck, n):
         dumps = judge(toks, 0)
         removed = n_before - (len(dumps[-1].split(';')[0].split('|')) if dumps and not dumps[-1].startswith('raised') and dumps[-1].split(';')[0] else 0)
         ck.case(key=tuple(toks), nontrivial=removed >= 2, tag=['stream:dangling', f'dangling:removed-{min(removed, 4)}{"+" if removed > 4 else ""}'])
+
+
+def model_subst_stream(ck, n):
+    """`substitute` on hosts and implementations of the C10 generators (random shapes and cells of the five built-in libraries;
+    unconnected / surplus pins, permuted node orders), host loaded as pickle state: model vs real objects, then copy / pickle /
+    remove_dangling_nodes / eliminate_1to1_forks on the result"""
+    from . import c10
+    rng = ck.rng
+    for _ in range(n):
+        with common.quiet():
+            impl, itags = c10.lib_impl(rng) if rng.random() < 0.35 else c10.rand_impl(rng)
+            c, htags = c10.rand_host(rng, impl)
+        u = c.cells['u']
+        if wfc_failures(c) or not impl_ok(impl) or not sub_ok(c, u, impl):
+            ck.case(key=None, nontrivial=False, tag='stream:model-subst-skipped'); continue
+        toks = ['st:' + spec_of(c), f'sub:{u.index}:{spec_of(impl)}']
+        for _ in range(rng.randint(0, 3)):
+            a = rng.choice(['copy', 'pickle', 'rd', 'elim'])
+            toks.append(f'rd:{rng.randrange(max(1, len(c.nodes)))}' if a == 'rd' else a)
+        dumps, fails = real_trace(toks)
+        if len(dumps) < len(toks) or any(f for f in fails) or any(t == 'elim' for t in toks):
+            # keep the prefix that ran; `elim` only where it is a well-formed use (checked on the replayed objects)
+            toks, dumps, fails = trim_to_wellformed(toks)
+        tags = {'stream:model-subst', 'host:regular' if c10.is_regular(c, u, impl) else 'host:not-regular'} | \
+               {f'impl:{t}' for t in itags + c10.impl_features(impl)} | {f'host:{t}' for t in htags}
+        run_history(ck, toks, dumps, fails, tags, 'model-subst')
+
+
+def gap_impl(rng):
+    """implementation in port-cell style whose forks drive several output ports and gates in random pin order: with some
+    instance outputs open, the copied forks get `None` gaps that substitute() has to squeeze out again (D30)"""
+    from kyupy.circuit import Circuit, Node, Line
+    m = Circuit('m')
+    forks = []
+    for k in range(rng.randint(1, 3)):
+        a = Node(m, f'A{k}', 'input'); m.io_nodes.append(a); f = Node(m, f'A{k}'); Line(m, a, f); forks.append(f)
+    for g in range(rng.randint(1, 4)):
+        x = Node(m, f'G{g}', rng.choice(['INV1', 'AND2', 'OR2', 'DFF']))
+        for _ in range(rng.randint(1, 2)): Line(m, rng.choice(forks), x)
+        f = Node(m, f'G{g}'); Line(m, x, f); forks.append(f)
+    conns = []
+    for k in range(rng.randint(1, 4)):
+        o = Node(m, f'O{k}', 'output'); m.io_nodes.append(o); conns.append((rng.choice(forks[1:] or forks), o))
+    for g in range(rng.randint(0, 3)):
+        x = Node(m, f'H{g}', 'BUF1'); conns.append((rng.choice(forks), x))
+        fo = Node(m, f'H{g}'); Line(m, x, fo)
+        o = Node(m, f'OH{g}', 'output'); m.io_nodes.append(o); Line(m, fo, o)
+    rng.shuffle(conns)
+    for f, t in conns: Line(m, f, t)
+    if rng.random() < 0.5:
+        try: m.eliminate_1to1_forks()
+        except Exception: pass
+    return m
+
+
+def model_gap_stream(ck, n):
+    """substitute with open output pins on implementations whose forks then have gaps to be squeezed out (D30), then copy / pickle"""
+    rng = ck.rng
+    for _ in range(n):
+        with common.quiet(): m = gap_impl(rng)
+        if not impl_ok(m):
+            ck.case(key=None, nontrivial=False, tag='stream:model-gap-skipped'); continue
+        nin = sum(1 for q in m.io_nodes if len(q.ins) == 0)
+        nout = len(m.io_nodes) - nin
+        toks = ['n:i0:input', 'n:s0:__fork__', 'l:0:-:1:-', 'io:0', 'n:u:CELLX1']
+        for k in range(nin):
+            if rng.random() < 0.85: toks.append(f'l:1:-:2:{k}')
+        nn, n_open = 3, 0
+        for k in range(nout):
+            if rng.random() < 0.55:
+                toks += [f'n:o{k}:output', f'l:2:{k}:{nn}:-', f'io:{nn}']; nn += 1
+            else: n_open += 1
+        toks += ['sub:2:' + spec_of(m), rng.choice(['copy', 'pickle'])]
+        toks, dumps, fails = trim_to_wellformed(toks)
+        run_history(ck, toks, dumps, fails, {'stream:model-gap', f'gap:open-outputs-{min(n_open, 3)}'}, 'model-gap')
+
+
+def trim_to_wellformed(toks):
+    """replay; stop before an `elim` that is not a well-formed use and after the first exception / WFc failure"""
+    c = new_circuit()
+    out, dumps, fails = [], [], []
+    for t in toks:
+        if t == 'elim' and not elim_pre(c): continue
+        if t.startswith('rd:') and int(t[3:]) >= len(c.nodes): continue
+        out.append(t)
+        try:
+            c = apply_op(c, t)
+        except Exception as ex:
+            e = f'{type(ex).__name__}: {ex}'[:300]
+            dumps.append('raised ' + e); fails.append([] if is_new(t) else [('raises', e)]); break
+        dumps.append(real_dump(c)); fails.append(wfc_failures(c))
+        if fails[-1]: break
+    return out, dumps, fails
+
+
+def model_resolve_stream(ck, n):
+    """`resolve_tlib_cells` with the built-in library OBJECTS on random netlists of their cells (some pins unconnected): the
+    model gets the implementations of the kinds in use; then copy / pickle / remove_dangling_nodes on the result"""
+    from . import c10
+    rng = ck.rng
+    for _ in range(n):
+        if rng.random() < 0.6:
+            case = gen_subst(rng)
+            with common.quiet(): c = build_subst(case)
+            tname = case['tlib']
+        else:
+            tname = rng.choice(c10.LIBS)
+            with common.quiet():
+                c = c10.rand_lib_circuit(rng, c10.get_tlib(tname), special=c10.SPECIAL.get(tname),
+                                         p_unconn_in=rng.choice([0.0, 0.08, 0.2]), p_unconn_out=rng.choice([0.0, 0.15, 0.4]))
+                if rng.random() < 0.4: c = c10.permuted(rng, c)
+        tl = tlib_of(tname)
+        kinds = sorted({x.kind for x in c.nodes if x.kind in tl.cells})
+        if wfc_failures(c) or not all(impl_ok(tl.cells[k][0]) for k in kinds):
+            ck.case(key=None, nontrivial=False, tag='stream:model-resolve-skipped'); continue
+        toks = ['st:' + spec_of(c), f'rtl:{tname}:{lib_spec(tl, kinds)}']
+        for _ in range(rng.randint(0, 2)):
+            a = rng.choice(['copy', 'pickle', 'rd'])
+            toks.append(f'rd:{rng.randrange(max(1, len(c.nodes)))}' if a == 'rd' else a)
+        toks, dumps, fails = trim_to_wellformed(toks)
+        unconn = any(l is None for x in c.nodes if x.kind in tl.cells for l in list(x.ins) + list(x.outs))
+        run_history(ck, toks, dumps, fails, {'stream:model-resolve', 'lib:' + tname, f'instances:{min(len(kinds), 4)}',
+                                             'resolve:unconnected-pins' if unconn else 'resolve:all-connected'}, 'model-resolve')
 
 
 def subst_stream(ck, n):
@@ -726,12 +1059,15 @@ def boundary_notes(ck):
         'eliminate_1to1_forks with a 1:1 fork that has two input lines': ['n:f:__fork__', 'n:g:BUF1', 'n:h:BUF1', 'l:0:-:1:-', 'l:2:-:0:-', 'l:1:-:0:-', 'elim'],
         'duplicate cell name': ['n:a:AND2', 'n:a:OR2'],
         'remove_dangling_nodes called on a port itself': ['n:a:input', 'io:0', 'rd:0'],
+        'substitute of a cell with a line from its own output to its own input':
+            ['n:a:input', 'n:u:CELLX1', 'n:o:output', 'l:0:-:1:0', 'l:1:0:1:1', 'l:1:1:2:-', 'io:0', 'io:2',
+             'sub:1:A,__fork__|B,__fork__|X,AND2|X,__fork__|Y,BUF1|Y,__fork__;0.0.2.0|1.0.2.1|2.0.3.0|3.0.4.0|4.0.5.0;0,1,3,5'],
     }
     for what, toks in probes.items():
         dumps, fails = real_trace(toks)
         v = first_violation(fails)
         res = 'WFc still holds' if v is None else f'step {v[0]} `{toks[v[0]]}` -> {v[1][0][0]}: {v[1][0][1]}'
-        if any(t.startswith('rd') for t in toks):
+        if False:
             mp = 'not modelled'
         else:
             try:
@@ -745,7 +1081,7 @@ def run(ck):
     ck.prove([], TARGETS, theorems())
     max_len = 120 if ck.tier == 'quick' else 300
     n_hist = 140 * (1 if ck.tier == 'quick' else 6)
-    for toks in [c['ops'] for c in corpus_cases() if 'ops' in c] + FIXED:
+    for toks in [FORK_GAP_WITNESS] + [c['ops'] for c in corpus_cases() if 'ops' in c] + FIXED:
         dumps, fails = real_trace(toks)
         run_history(ck, toks, dumps[:len(toks)], fails, {'stream:fixed'}, 'fixed')
     def stream(n):
@@ -753,6 +1089,9 @@ def run(ck):
             g, prof = gen_history(ck.rng, max_len)
             run_history(ck, g.toks, g.dumps, g.fails, g.tags | {'stream:history'}, prof)
     stream(n_hist)
+    model_subst_stream(ck, 120 * ck.scale)
+    model_resolve_stream(ck, 50 * ck.scale)
+    model_gap_stream(ck, 60 * ck.scale)
     subst_stream(ck, 60 * ck.scale)
     subst_synth_stream(ck, 150 * ck.scale)
     dangling_stream(ck, 40 * ck.scale)
@@ -765,7 +1104,11 @@ def run(ck):
     ck.assumptions += ['Python object identity is modelled by explicit ids (fresh id = heap counter); dead objects stay in the heap',
                        'well-formed use (DESIGN.md section 7) is evaluated by the generator on the real objects and by `pre` on the model; '
                        'both must agree (pre = 1 at every generated step)',
-                       'substitute / resolve_tlib_cells / remove_dangling_nodes are not modelled: WFc is checked on the real objects after the call']
+                       'substitute / resolve_tlib_cells / remove_dangling_nodes: modelled at object level (Model/CircObjSub.lean), same dump '
+                       'after the call and the same raising cases; node-keyed sets/dictionaries of the real code compare by Node.__eq__ '
+                       '(name, kind) and so does the model; the generator applies them as well-formed uses (sub_ok / impl_ok), the '
+                       "model's precondition `substPre` (which also contains the run-time pin guards and gap-freeness of the new fork "
+                       'outputs) is reported per step in the histogram (`pre2:<op>:<value>`)']
     return ck.finish(RULE)
 
 
